@@ -167,6 +167,8 @@ func Harness_C07_transition() {
 	if mainnet {
 		return // the mainnet branch of buyGas is non-conserving by design (property excludes mainnet ids)
 	}
+	inKF := knownFinding("C07-refund-height-mints-ong", e.Context.BlockNumber.Uint64() == RefundHeight)
+	_ = inKF
 	after := new(big.Int).Add(new(big.Int).Add(st.get(c07Sender), st.get(c07Receiver)), st.get(c07Callee))
 	assert(bigEq(after, total), "ong-conserved")
 	maxCharge := new(big.Int).Add(new(big.Int).Mul(new(big.Int).SetUint64(msg.gas), msg.gasPrice), msg.value)
